@@ -796,7 +796,7 @@ where
     #[cfg(not(nucleo_verif_small))]
     const MAX_SEQUENTIAL: usize = 2000;
     #[cfg(nucleo_verif_small)]
-    const MAX_SEQUENTIAL: usize = 6;
+    const MAX_SEQUENTIAL: usize = 2;
 
     // True if the last partitioning was reasonably balanced.
     let mut was_balanced = true;
